@@ -55,7 +55,7 @@ VP_C_END
 #define VP_NO_EFFECT (SFX(TAIL_N) == 0 && SFX(SETOPTYPE_N) == 0 && SFX(SESSION_SET_N) == 0 && SFX(HM_DESTROY_N) == 0 && \
                       SFX(CREATE_N) == 0 && SFX(RESETOP_N) == 0 && SFX(SETREAUTH_N) == 0 && SFX(OUT_WRITES) == 0 && CNT(VALUE_READS) == 0 && \
                       CNT(SET) == 0 && CNT(DELETE) == 0 && CNT(DESTROY) == 0 && CNT(DECRYPT) == 0 && CNT(ENCRYPT) == 0 && CNT(TX_START) == 0)
-#define VP_FRESH_GHOST (VP_NO_EFFECT && SFX(MECHPERM_N) == 0 && SFX(HR_N) == 0 && SFX(HW_N) == 0 && CNT(LOG) == 0)
+#define VP_FRESH_GHOST (VP_NO_EFFECT && SFX(MECHPERM_N) == 0 && SFX(HR_N) == 0 && SFX(HW_N) == 0 && CNT(LOG) == 0 && CNT(TX_COMMIT) == 0 && CNT(TX_ABORT) == 0)
 #define VP_SOFTHSM_FRAME VP_ENV_FRAME, __CPROVER_object_whole(vp_g_sfx)
 #define VP_HAVOC_SOFTHSM() do { VP_HAVOC_OBJECTS(); __CPROVER_havoc_object(vp_in_ses); __CPROVER_havoc_object(vp_in_tmpl); __CPROVER_havoc_object(vp_in_mparam); } while (0)
 
